@@ -200,6 +200,11 @@ def rule_D6_ownership(tree: Tree) -> RuleResult:
                     attrs = [dotted(t) for t in n.targets if isinstance(t, ast.Attribute)]
                     if len(attrs) > 1:
                         bad.append(f"{f.qualname}: `{src(n, 70)}` binds one container to {attrs}: state meant to be separate (per direction) is shared")
+                # one mutable object as the value of every key / element: dict.fromkeys(keys, []), [[]] * n, {k: shared for k in …} with a hoisted object
+                if isinstance(n, ast.Call) and dotted(n.func) == "dict.fromkeys" and len(n.args) == 2 and _is_mutable_literal(n.args[1]):
+                    bad.append(f"{f.qualname}: `{src(n, 70)}` gives every key the same {type(n.args[1]).__name__.lower()} object: state meant to be separate per key is shared")
+                if isinstance(n, ast.BinOp) and isinstance(n.op, ast.Mult) and any(isinstance(x, ast.List) and any(_is_mutable_literal(e) for e in x.elts) for x in (n.left, n.right)):
+                    bad.append(f"{f.qualname}: `{src(n, 70)}` repeats one mutable element: every position is the same object")
                 # instance attribute bound to a module-level mutable object (alias shared by all instances)
                 if isinstance(n, (ast.Assign, ast.AnnAssign)) and getattr(n, "value", None) is not None:
                     tg0 = n.targets[0] if isinstance(n, ast.Assign) else n.target
